@@ -83,7 +83,7 @@ func defaultScenario(d defaultEntry, logN int, bootstrap bool) engine.Scenario {
 			}
 			c.Fail(sig, format, args...)
 		}
-		s, rejected := build(c, name, resLit, btpLit, adjust)
+		s, rejected := build(c, name, resLit, btpLit, adjust, false)
 		c.Cover("default", d.name)
 		c.Cover("defaultLogN", fmt.Sprint(logN))
 		if c.Failed() {
